@@ -91,6 +91,17 @@ def part_single(ctx, helper, root):
         hookscs.append(dict(base, idx=11000 + j, fault=fault + "+hook:%s=1" % htype, times=10 ** 6,
                             hook_exits={htype: 1}))
 
+    # an error that NEVER goes away at a position where the code loops on its own (newOrder answered
+    # accountDoesNotExist: re-register and try again — once): the attempt must still end, and be reported
+    for j, (pos, fault) in enumerate([(["newOrder", 0], "err10:accountDoesNotExist"),
+                                      (["newOrder", 0], "err10:badNonce"),
+                                      (["finalize", 0], "err10:serverInternal"),
+                                      (["authz", 0], "err10:unauthorized")]):
+        base = [s for s in flowgrid.grid(kp_reuse_values=(False,), pair_values=(False,))
+                if s["pos"] == pos and s["fault"] == fault]
+        if base:
+            hookscs.append(dict(base[0], idx=12000 + j, fault=fault + "+forever", times=10 ** 6))
+
     def run(s):
         s2 = dict(s)
         if s["pos"][0] == "none":
